@@ -41,6 +41,7 @@ fn main() {
         "splits-enum" => splits::splits_enum(rest),
         "lpt-replay" => splits::lpt_replay(rest),
         "gate-replay" => splits::gate_replay(rest),
+        "gate-history" => splits::gate_history(rest),
         "http-replay" => http::http_replay(rest),
         "http-record" => http::http_record(rest),
         "iceberg-replay" => iceberg::replay(rest),
